@@ -234,14 +234,84 @@ def _worker(args):
                           'budget_exhausted': False}, 'wall_s': 0}
 
 
-def run_jobs(jobs, nproc=None):
-    """jobs: list of (module, function, kwargs); returns list of result dicts"""
+JOB_TIMEOUT_S = float(os.environ.get('VERIF_JOB_TIMEOUT', '1500'))
+
+
+def _child(conn, args):
+    try:
+        conn.send(_worker(args))
+    except BaseException as e:       # pragma: no cover
+        try:
+            conn.send(_failed(args, 'worker failed: %r' % (e,)))
+        except BaseException:
+            pass
+    finally:
+        conn.close()
+
+
+def _failed(args, msg, inconclusive=False):
+    modname, funcname, kwargs = args
+    r = {'job': '%s.%s%r' % (modname, funcname, kwargs), 'cex': [], 'timeouts': [], 'tags': {},
+         'samples': [], 'functions': [], 'cex_total': 0, 'errors': [] if inconclusive else [msg],
+         'stats': {'paths': 0, 'decisions': 0, 'queries': 0, 'solver_time_s': 0, 'unknown_queries': 0,
+                   'inconclusive_paths': [[msg, 1]] if inconclusive else [], 'realisations': 0,
+                   'budget_exhausted': inconclusive}, 'wall_s': 0}
+    return r
+
+
+def run_jobs(jobs, nproc=None, job_timeout_s=None):
+    """jobs: list of (module, function, kwargs); each runs in its own forked process with a hard
+    wall-clock limit (a job that exceeds it is killed and reported as inconclusive, never as a pass).
+    Returns the list of result dicts in job order."""
     nproc = nproc or NPROC
-    if len(jobs) == 1 or nproc == 1:
-        return [_worker(j) for j in jobs]
+    job_timeout_s = job_timeout_s or JOB_TIMEOUT_S
     ctx = multiprocessing.get_context('fork')
-    with ctx.Pool(min(nproc, len(jobs)), maxtasksperchild=1) as pool:
-        return pool.map(_worker, jobs, chunksize=1)
+    results = [None] * len(jobs)
+    pending = list(range(len(jobs)))
+    running = {}      # index -> (process, conn, start)
+    while pending or running:
+        while pending and len(running) < nproc:
+            i = pending.pop(0)
+            parent, child = ctx.Pipe(duplex=False)
+            p = ctx.Process(target=_child, args=(child, jobs[i]))
+            p.daemon = True
+            p.start()
+            child.close()
+            running[i] = (p, parent, time.time())
+        done = []
+        for i, (p, conn, t0) in running.items():
+            if conn.poll(0):
+                try:
+                    results[i] = conn.recv()
+                except EOFError:
+                    results[i] = _failed(jobs[i], 'worker died without a result')
+                done.append(i)
+            elif not p.is_alive():
+                if conn.poll(0.2):
+                    try:
+                        results[i] = conn.recv()
+                    except EOFError:
+                        results[i] = _failed(jobs[i], 'worker died without a result')
+                else:
+                    results[i] = _failed(jobs[i], 'worker died without a result (exit code %s)' % p.exitcode)
+                done.append(i)
+            elif time.time() - t0 > job_timeout_s:
+                p.terminate()
+                results[i] = _failed(jobs[i], 'job exceeded its wall-clock limit of %ds and was stopped'
+                                     % job_timeout_s, inconclusive=True)
+                done.append(i)
+        for i in done:
+            p, conn, _ = running.pop(i)
+            try:
+                conn.close()
+            except Exception:
+                pass
+            p.join(timeout=1)
+            if p.is_alive():
+                p.kill()
+        if not done:
+            time.sleep(0.05)
+    return results
 
 
 def merge_stats(results):
